@@ -11,7 +11,8 @@ import (
 // (real CRC in native replays); the subject is the accept/emit decision logic.
 
 // vChecksumPacket builds header + one 4-byte chunk of the given type with the
-// checksum field in one of three modes: 0 correct, 1 zero, 2 wrong (non-zero).
+// checksum field in one of four modes: 0 correct, 1 zero, 2 wrong (the correct one with a byte
+// flipped), 3 wrong and almost zero (one non-zero byte).
 func vChecksumPacket(ctype chunkType, mode int) []byte {
 	raw := nondetBytes(packetHeaderSize + 4)
 	raw[12], raw[14], raw[15] = byte(ctype), 0, 4
@@ -27,6 +28,15 @@ func vChecksumPacket(ctype chunkType, mode int) []byte {
 		vassume(flip != 0)
 		raw[8+vPick(4)] ^= flip
 		vassume(binary.LittleEndian.Uint32(raw[8:]) != 0)
+	case 3:
+		// wrong and almost zero: three bytes of the field are zero, one is not (a zero-checksum
+		// packet with one corrupted byte in the field). The field does not depend on the CRC,
+		// so a counterexample replays natively unless the true CRC happens to be that value.
+		raw[8], raw[9], raw[10], raw[11] = 0, 0, 0, 0
+		b := nondetU8()
+		vassume(b != 0)
+		raw[8+vPick(4)] = b
+		vassume(generatePacketChecksum(raw) != binary.LittleEndian.Uint32(raw[8:]))
 	}
 	return raw
 }
@@ -39,7 +49,7 @@ func vh_C13_L1_acceptance() {
 	a.recvZeroChecksum = nondetBool()
 	a.sendZeroChecksum = nondetBool() // what the peer accepts is irrelevant to what this side accepts
 	ctype := vChecksumKinds[vPick(len(vChecksumKinds))]
-	mode := vPick(3)
+	mode := vPick(4)
 	raw := vChecksumPacket(ctype, mode)
 	_, err := a.unmarshalPacket(raw)
 	bad := err != nil && errors.Is(err, ErrChecksumMismatch)
@@ -51,6 +61,8 @@ func vh_C13_L1_acceptance() {
 		vassert(bad == (!a.recvZeroChecksum || mandatory), "zero checksum accepted only if advertised and never for INIT / COOKIE-ECHO packets")
 	case 2:
 		vassert(bad, "a non-zero wrong checksum is always rejected")
+	case 3:
+		vassert(bad, "a wrong checksum is rejected also when three of its four bytes are zero")
 	}
 	vobserve("bad", vb2u(bad))
 	vcover("end")
@@ -63,7 +75,7 @@ func vh_C13_L4_rejected_has_no_effect() {
 	a.sendZeroChecksum = nondetBool()
 	a.setState(uint32(vPick(8)))
 	ctype := vChecksumKinds[vPick(len(vChecksumKinds))]
-	raw := vChecksumPacket(ctype, 2)
+	raw := vChecksumPacket(ctype, 2+vPick(2))
 	// whatever the previous packet left behind in the per-packet context
 	a.immediateAckTriggered, a.delayedAckTriggered = nondetBool(), nondetBool()
 	state, cum, ackPt, nextTSN := a.getState(), a.peerLastTSN(), a.cumulativeTSNAckPoint, a.myNextTSN
